@@ -42,13 +42,14 @@ def outer_tags(T):
 
 class Gen:
     def __init__(self, rng, depth=3, any_ok=True, choice_ok=True, defaults_ok=True, reals='bin', chars=True,
-                 tags=True, times=True, max_fields=4, set_ok=True, untagged_choice_ok=True, implicit_ok=True):
+                 tags=True, times=True, max_fields=4, set_ok=True, untagged_choice_ok=True, implicit_ok=True, any_der=False):
         self.r = rng
         self.depth = depth
         self.any_ok, self.choice_ok, self.defaults_ok = any_ok, choice_ok, defaults_ok
         self.reals, self.chars, self.tags, self.times = reals, chars, tags, times
         self.max_fields, self.set_ok = max_fields, set_ok
         self.untagged_choice_ok, self.implicit_ok = untagged_choice_ok, implicit_ok
+        self.any_der = any_der          # ANY holds DER encodings only (for the canonical codecs)
 
     # ---- types
     def rtag(self, small=False):
@@ -187,8 +188,8 @@ class Gen:
             return ('any', r.choice([
                 b'\x04' + bytes([n]) + body, b'\x02\x01' + bytes([r.randint(0, 255)]), b'\x05\x00',
                 b'\x30\x03\x02\x01\x05', b'\xa0\x03\x02\x01\x05', b'\x0c\x02\xc3\xa9', b'\x30\x00',
-                b'\x81' + bytes([n]) + body, b'\x30\x80\x02\x01\x07\x00\x00', b'\x01\x01\xff',
-                b'\x7f\x81\x00\x02\x04\x00', b'\x24\x80\x04\x01\x61\x00\x00']))
+                b'\x81' + bytes([n]) + body, b'\x01\x01\xff',
+                b'\x7f\x81\x00\x02\x04\x00'] + ([] if self.any_der else [b'\x24\x80\x04\x01\x61\x00\x00', b'\x30\x80\x02\x01\x07\x00\x00'])))
         if k in ('seq', 'set'):
             out = []
             for p, ft in b[1]:
